@@ -3,28 +3,42 @@ CHECK = {
     "harness": "h-c12",
     "translators": ["c12_consts"],
     "level": "proof",
-    "technique": "Lean 4 theorems over an executable model + translator-regenerated constants + line-by-line correspondence with the real entry points",
+    "technique": "Lean 4 theorems over an executable model + translator-regenerated constants + line-by-line correspondence with the real entry points (and, through verif-hooks, with the private get_booth_index, batch_add and Schedule of msm.rs)",
     "rule": "one evaluation = one request line answered by both the Rust entry point and the Lean model "
-            "(MSM entry x length x scalar/base classes x thread pool; Booth digit rows; FFT size x pool x input class; "
-            "eval_polynomial/kate_division/lagrange_interpolate per length; EvaluationDomain method per (j,k)); "
+            "(MSM entry x length x scalar/base classes x thread pool; Booth digit rows; batch_add batch x operand classes "
+            "{chord, doubling +/-, cancellation +/-, empty bucket, repeated bucket, vertical tangent} x batch size 0..64; "
+            "Schedule decision traces x window size; FFT size x pool x input class; "
+            "eval_polynomial/kate_division/lagrange_interpolate/compute_inner_product per length; EvaluationDomain method per (j,k)); "
             "non-trivial = more than one term / size > 1; distinctness by hash of the request line",
-    "explanation": "Lean theorems (all lengths, all thread counts, abstract commutative group / ring) over the executable "
+    "explanation": "Lean theorems (all lengths, all thread counts, abstract commutative group / ring / field) over the executable "
                    "model of MSM/FFT/domain algebra; the model is tied to the implementation by running both on the same "
                    "requests and diffing, the field constants are re-parsed from the source on every run, and the harness "
-                   "checks the property's oracle (naive sum / naive DFT / Horner / round trips) directly on the implementation",
+                   "checks the property's oracle (naive sum / naive DFT / Horner / round trips / the curve's own group law per "
+                   "batch_add entry) directly on the implementation. Deliberately tight lines: `sched` compares the decision "
+                   "trace of Schedule (diverted / pending count / flush at 64), so a behaviour-preserving change of "
+                   "Schedule::contains (e.g. scanning only set[..ptr], which would let bucket 0 use the affine path) shows up as "
+                   "a model/impl difference without a failing input; `batchadd-*-dup` / `-vertical` lines pin the code's behaviour "
+                   "outside the schedule invariant (never reached from msm_best).",
     "trusted_base": [
         "blst group and field arithmetic (bases, buckets, multi_exp) is modelled as an abstract commutative group / as the naive sum and compared by correspondence only",
         "the driver's own affine BLS12-381/BN254 G1 arithmetic (Model/C12/Curve.lean) used to print [k]G; its constants are proved on-curve and of order r by kernel evaluation",
-        "ff::Field::pow_vartime, batch_invert and invert are specified as power / inverse (0 stays 0)",
+        "ff::Field::pow_vartime, batch_invert and invert are specified as power / inverse (0 stays 0 / invert(0) = None)",
+        "that the affine chord/tangent point is the group sum (associativity etc.) is the group law of C11; here: shared-inversion algebra, case decision and closure on y^2 = x^3 + b",
     ],
-    "level_text": "Kernel-checked Lean theorems about an executable model of the MSM/FFT/evaluation-domain algorithms (all lengths, all thread counts), with the model checked against the real entry points on every run",
+    "level_text": "Kernel-checked Lean theorems about an executable model of the MSM/FFT/evaluation-domain algorithms (all lengths, all sizes, all thread counts, batch-affine path down to the coordinate formulas with the shared inversion), with the model checked against the real entry points and the private batch_add/Schedule on every run",
     "level_note": "Trusted: Lean kernel, the correspondence harness and driver; blst group arithmetic and rayon's scheduler are modelled, not verified. "
                   "l_i_range at a domain point is a recorded known finding (full-strength statement disproved in Lean, partial theorem off the nodes). "
-                  "Bit-reversal swap loop = recursive permutation is kernel-checked only up to 2^7 (larger sizes by correspondence); "
-                  "batch_add's affine chord/tangent formulas are modelled as the group law (their correctness belongs to C11).",
+                  "The bit-reversal swap loop = recursive permutation is now proved for every log_n (bitrev_swap_eq_rec), so best_fft_eq_dft, "
+                  "coeff_to_lagrange/extended_spec and ifft_fft_id carry no size cap and no permutation hypothesis. "
+                  "batch_add is modelled at coordinate level (two loops, one inversion, doubling / cancellation / empty-bucket branches, panics) and "
+                  "proved to perform each entry's own chord/tangent step under the schedule invariant (schedule_invariant, batch_add_spec; hypothesis: no vertical tangent, "
+                  "i.e. no point of order two, true for every CurveAffine of the crate; tangent slope 3x^2/2y assumes a = 0, also true for all of them); "
+                  "the step from 'chord/tangent point' to 'group sum' is C11's. The abstract-group Schedule model and the coordinate-level batch_add model are tied to the code separately "
+                  "(sched / batchadd lines), not to each other by a refinement theorem.",
     "assumptions": [
         "rayon executes every spawned closure exactly once",
         "fewer than 2^32 bases (the code casts the length to u32)",
+        "every CurveAffine used with msm_best is a short Weierstrass curve with a = 0 and without points of order two (BLS12-381 G1/G2, BN254 G1/G2)",
     ],
     "timeout": {"quick": 600, "thorough": 2400, "search": 600},
 }
